@@ -672,7 +672,7 @@ func ifaceInfo(t *Ty, st *Struct) (bool, bool) {
 	switch t.K {
 	case "any":
 		return true, true
-	case "iface", "ifacelit":
+	case "iface", "ifacelit", "err":
 		return true, false
 	}
 	return false, false
@@ -816,6 +816,13 @@ func (p *Package) emitStruct(w *strings.Builder, s *Struct) {
 		impls := "nil"
 		if isI && !all {
 			impls = "[]any{ZzImplA{}, ZzImplB{}}"
+			bt := f.Ty.inst(s)
+			for bt.K == "opt" {
+				bt = bt.Elem.inst(s)
+			}
+			if bt.K == "err" {
+				impls = "[]any{ZzErrA{}}"
+			}
 		}
 		opaque := f.Ty.K == "tparam" && f.Ty.inst(s).K == "opt"
 		fmt.Fprintf(w, "\t{Name: %s, Emb: %v, Empty: %v, Tag: %s, Nilable: %v, All: %v, Impls: %s, Opaque: %v},\n", q(f.Name), f.Embedded, f.Empty, q(f.Tag), f.Ty.Nilable(), all, impls, opaque)
